@@ -150,7 +150,6 @@ class Ref8(c07.Ref):
         super().__init__(list(lines), rows)
         self.regs = {}
         self.traffic = []         # (register name, text, linewise) of every reg_put, for the register model
-        self.caret_past_eol = False   # True = mirror KF-CARET-PAST-EOL (only used by the classifier of that finding)
 
     # -- buffer helpers
     def reindex(self):
@@ -240,8 +239,8 @@ class Ref8(c07.Ref):
             if t is None:
                 return None
             r2, o2 = t
-            if mkey == '^' and o2 is not None and not self.caret_past_eol:
-                o2 = min(o2, self.eol(r2))      # the target of ^ is a position of the line, at most its terminator
+            if mkey == '^' and o2 is not None:
+                o2 = min(o2, self.eol(r2))      # the target of ^ is a position of the line, at most its terminator (repo 27e5b4d)
         lnmode = o2 is None
         if lnmode:
             o1, o2 = 0, self.eol(r2)
@@ -622,9 +621,8 @@ def render(L, r, o, regs):
     return out, shown
 
 
-def expected(text, rows, prog, caret_past_eol=False):
+def expected(text, rows, prog):
     ref = Ref8(c07.lines_of(text), rows - 1)
-    ref.caret_past_eol = caret_past_eol
     ref.run8(prog)
     out, regs = render(ref.L, ref.r, ref.o, ref.regs)
     return out, regs, ref
@@ -972,16 +970,6 @@ def check_case(exe, c):
                 bad = {'what': 'register %s differs from the reference (revealed by putting it after X of "XY")' % (nm or 'unnamed'),
                        'expected': want_regs[nm], 'observed': regs[nm]}
                 break
-    if bad and any(c[0] in ('op', 'pipe') and '^' in (c[5] if c[0] == 'op' else c[3]) for c in prog):
-        # KF-CARET-PAST-EOL: an operator whose target is ^ on a line without a non-blank gets the position AFTER the
-        # terminator.  Recognised only if mirroring exactly that (and nothing else) explains the whole observation.
-        try:
-            q_out, q_regs, q_ref = expected(text, rows, prog, caret_past_eol=True)
-            if q_out == out and all(q_regs[nm] == regs[nm] for nm in REVEAL):
-                bad['kf'] = 'KF-CARET-PAST-EOL'
-                return bad, q_ref
-        except Exception:
-            pass
     return bad, ref
 
 
